@@ -368,14 +368,15 @@ func TestC14(t *testing.T) {
 		}
 		addFile := func(name, next string) {
 			f := c14File{Name: name}
-			switch rapid.IntRange(0, 9).Draw(t, "state") {
-			case 0: // missing
-			case 1, 2: // cache only
+			// (rapid favours the ends of a range, so the rare state sits in the middle)
+			switch rapid.IntRange(0, 24).Draw(t, "state") {
+			case 13: // missing: a single missing file fails the whole render
+			case 1, 2, 3, 4, 21: // cache only
 				f.InCache, f.Cache = true, mk(name, next, "/cache")
-			case 3, 4: // both, different content
+			case 5, 6, 7, 8, 22: // both, different content
 				f.OnDisk, f.Disk = true, mk(name, next, "/disk")
 				f.InCache, f.Cache = true, mk(name, next, "/cache")
-			case 5: // zero bytes on disk, source in the cache
+			case 9, 10: // zero bytes on disk, source in the cache
 				f.OnDisk, f.Disk, f.EmptyDisk = true, []c14Piece{}, true
 				f.InCache, f.Cache = true, mk(name, next, "/cache")
 			default:
